@@ -135,12 +135,14 @@ def ob_native_threads():
     """counterexample search only (never supports a holds verdict): the first scalars of fresh threads of one process must differ"""
     def body(stats):
         from core import native
-        out = native("sm2_fresh_threads")
-        if out and out.startswith("dup:"):
-            raise Violation("SM2 key generation in fresh threads of one process returned repeated private scalars (%s): the generator is not seeded afresh from the OS per thread" % out,
-                            {"native": out, "cmd": "gmreplay sm2_fresh_threads"})
-        return {"native": out, "note": "search only; a pass here decides nothing"}
-    return run_obligation("native_search_fresh_across_threads", ["gm_sm2::key::gen_keypair"], "8 key generations in 4 threads (native search)", body, [])
+        outs = {}
+        for lib in ("sm2", "sm9"):
+            out = outs[lib] = native(lib + "_fresh_threads")
+            if out and out.startswith("dup:"):
+                raise Violation("%s key generation in fresh threads of one process returned repeated secret scalars (%s): the generator is not seeded afresh from the OS per thread" % (lib.upper(), out),
+                                {"native": out, "cmd": "gmreplay %s_fresh_threads" % lib})
+        return {"native": outs, "note": "search only; a pass here decides nothing"}
+    return run_obligation("native_search_fresh_across_threads", ["gm_sm2::key::gen_keypair", "gm_sm9::key::generate_enc_master_key"], "8 key generations in 4 threads per library (native search)", body, [])
 
 
 def run(tier, seed, t0):
